@@ -24,7 +24,7 @@ type c13Case struct {
 func init() {
 	engine.Register(&engine.Check{
 		ID: "C13", Level: "exploration",
-		Rule:        "every sequence (order matters to the scan) of 1..5 (quick) / 1..6 (thorough) points on the 3x3 grid and (thorough) every set of <=6 points on the 4x4 grid; layouts XY/XYZ/XYM/XYZM with a unique tag in the extra ordinates of every input point; the >50-point path: each small input padded to 51, 52 and 60 points with copies of one of its own points, with all of its own points in rotation, and with a 4x4 filler grid; plus 51..200-point inputs on lattices from 5x5 (maximally degenerate) to 2^20; plus a 64-point block with every pair of outliers from a half-integer ring around it; ConvexHull (MultiPoint) and ConvexHullFlat. Oracle = strict monotone-chain hull in rational arithmetic: result kind (Point / 2-point LineString / Polygon) from the number of distinct, non-collinear inputs; vertex set = exact extreme points; each vertex bit-equal to an input coordinate incl. tags; ring closed, one orientation for all inputs, no collinear vertex; input slice incl. spare capacity unchanged. distinct_nontrivial = distinct inputs with >=2 distinct points Also: 4-5 point sets whose directions from the lowest point differ by a cross product of 1 or 2 at magnitudes up to 2^20, every permutation x 8 symmetries x 2 translations.",
+		Rule:        "every sequence (order matters to the scan) of 1..5 (quick) / 1..6 (thorough) points on the 3x3 grid and (thorough) every set of <=6 points on the 4x4 grid; layouts XY/XYZ/XYM/XYZM with a unique tag in the extra ordinates of every input point; the >50-point path: each small input padded to 51, 52 and 60 points with copies of one of its own points, with all of its own points in rotation, and with a 4x4 filler grid; every sequence of 4..5 (thorough 6) points on the 6x2 and 2x6 grids (long collinear runs on the lowest row / leftmost column in every input order); plus 51..200-point inputs on lattices from 5x5 (maximally degenerate) to 2^20; plus a 64-point block with every pair of outliers from a half-integer ring around it; ConvexHull (MultiPoint) and ConvexHullFlat. Oracle = strict monotone-chain hull in rational arithmetic: result kind (Point / 2-point LineString / Polygon) from the number of distinct, non-collinear inputs; vertex set = exact extreme points; each vertex bit-equal to an input coordinate incl. tags; ring closed, one orientation for all inputs, no collinear vertex; input slice incl. spare capacity unchanged. distinct_nontrivial = distinct inputs with >=2 distinct points Also: 4-5 point sets whose directions from the lowest point differ by a cross product of 1 or 2 at magnitudes up to 2^20, every permutation x 8 symmetries x 2 translations.",
 		Run:         c13Run,
 		Replay:      func(c *engine.Ctx, kind string, raw json.RawMessage) { c13Exec(c, decodeCase[c13Case](raw)) },
 		Assumptions: []string{"integer / half-integer grid inputs (all predicates exact)"},
@@ -259,6 +259,41 @@ func c13Run(c *engine.Ctx) {
 			c13Exec(c, c13Case{Pts: padOwnFirst, Layout: l, Via: "flat"})
 			c13Exec(c, c13Case{Pts: padRotate, Layout: l, Via: "flat"})
 			c13Exec(c, c13Case{Pts: padFiller, Layout: layouts[(i+2)%4], Via: "multipoint"})
+		}
+	})
+	// long rows and columns: every sequence of 5 (thorough 6) points on the 6x2 and the 2x6 grid -
+	// up to six collinear points on the lowest row / leftmost column (where the focal point of the
+	// radial sort lies) in every input order, with one or more points off the row
+	var wide, tall [][2]float64
+	for a := 0; a < 6; a++ {
+		for b := 0; b < 2; b++ {
+			wide = append(wide, [2]float64{float64(a), float64(b)})
+			tall = append(tall, [2]float64{float64(b), float64(a)})
+		}
+	}
+	idx12 := make([]int, 12)
+	for i := range idx12 {
+		idx12[i] = i
+	}
+	rowLen := 5
+	if c.Thorough() {
+		rowLen = 6
+	}
+	var rowSeqs [][]int
+	for _, sq := range ref.Seqs(idx12, rowLen) {
+		if len(sq) >= 4 {
+			rowSeqs = append(rowSeqs, sq)
+		}
+	}
+	c.Note("row_inputs", 2*len(rowSeqs))
+	c.Parallel(len(rowSeqs), func(i int) {
+		for gi, g := range [][][2]float64{wide, tall} {
+			var pts []ref.F
+			for _, k := range rowSeqs[i] {
+				pts = append(pts, ref.F(g[k][0]), ref.F(g[k][1]))
+			}
+			c13Exec(c, c13Case{Pts: pts, Layout: layouts[(i+gi)%4], Via: "flat"})
+			c.Count("row_cases", 1)
 		}
 	})
 	// 64-point block + outlier pairs from a half-integer ring around it
